@@ -494,6 +494,14 @@ class SimTransport(Transport):
             sim.stats['read_timeout_close'] += 1
             sim.notice_drop(c, side)
             return False
+        if not c.open[1 - side] and sim.cfg.get('epipe') and sim.epipe_rng.random() < sim.cfg['epipe']:
+            # the other end is gone (closed, or its process was killed) and its RST has come back: this send() fails with
+            # EPIPE / ECONNRESET and TcpConnection.send tears the connection down on the spot - in the middle of whatever
+            # loop of the library is sending
+            sim.stats['send_fails_peer_gone'] += 1
+            sim.mon.sit['disconnect_noticed_inside_send'] += 1
+            sim.notice_drop(c, side)
+            return False
         data = _pickle.dumps(message, 2)
         c.q[side].append(data)
         sim.mon.on_send(p, node.id, c, message, len(data))
@@ -751,6 +759,7 @@ class Sim(object):
         import pysyncobj.serializer as _SERMOD
         _SERMOD.os = _ForkOs()
         self.fork_rng = random.Random(seed * 7919 + 5)
+        self.epipe_rng = random.Random(seed * 104729 + 11)
         self.forks_left = cfg.get('fork_budget', 1)
         S.createPoller = lambda t: NullPoller()
         install_virtual_time(self._battery_sleep)
@@ -1005,6 +1014,8 @@ class Sim(object):
         a, b = c.ends
         if a.key != b.key and self.pair_blocked(a.key, b.key):
             return False
+        if getattr(c.ends[1 - d], 'deaf', False):
+            return False          # its last tick raised before it reached its sockets
         return not c.ends[1 - d].dead
 
     def do_deliver(self, c, d):
@@ -1088,6 +1099,18 @@ class Sim(object):
                 self.mon.on_escaped(p, sig, e)
         return None
 
+    def tick_node(self, p):
+        """One doTick.  The library polls its sockets at the very end of a tick: a tick that raises has not polled, so nothing
+        can be handed to that node until one of its ticks completes (with the auto-tick thread: logged, and the loop goes on)."""
+        n0 = len(p.escaped)
+        self.run_node(p, p.obj.doTick, 0.0)
+        if len(p.escaped) > n0:
+            if not getattr(p, 'deaf', False):
+                self.mon.sit['tick_raised_node_deaf'] += 1
+            p.deaf = True
+        else:
+            p.deaf = False
+
     # -- actions ---------------------------------------------------------------------
     def act(self, a):
         """Execute one explicit action tuple; returns the touched Proc or None."""
@@ -1099,7 +1122,7 @@ class Sim(object):
             CLK.now += a[2]
             self.stats['tick'] += 1
             self.mon.before_tick(p)
-            self.run_node(p, p.obj.doTick, 0.0)
+            self.tick_node(p)
             self.mon.after_tick(p)
             return p
         if k == 'D':
@@ -1246,7 +1269,7 @@ class Sim(object):
             storage.arm(q, kill_k)
         try:
             self.mon.before_tick(q)
-            self.run_node(q, q.obj.doTick, 0.0)
+            self.tick_node(q)
         finally:
             if kill_k is not None:
                 fired = storage.disarm()
